@@ -2,9 +2,9 @@
 //!
 //! Requires the `time_trigger` feature.
 
-#[cfg(test)]
-use chrono::NaiveDateTime;
-use chrono::{DateTime, Datelike, Duration, Local, TimeZone, Timelike};
+use chrono::{
+    DateTime, Datelike, Duration, Local, LocalResult, NaiveDate, NaiveDateTime, TimeZone, Timelike,
+};
 #[cfg(test)]
 use mock_instant::{SystemTime, UNIX_EPOCH};
 use rand::Rng;
@@ -212,6 +212,27 @@ impl TimeTrigger {
         }
     }
 
+    /// Maps a wall-clock time of the local zone that lies ahead of `current` to an instant
+    /// strictly after `current`.
+    fn local_after(naive: NaiveDateTime, current: DateTime<Local>) -> DateTime<Local> {
+        let resolved = match Local.from_local_datetime(&naive) {
+            LocalResult::Single(time) => Some(time),
+            // The wall-clock time occurs twice because the clocks are set back: take the
+            // first occurrence that is still ahead.
+            LocalResult::Ambiguous(a, b) => {
+                let (first, second) = if a <= b { (a, b) } else { (b, a) };
+                Some(if first > current { first } else { second })
+            }
+            // The wall-clock time is skipped because the clocks are set forward.
+            LocalResult::None => None,
+        };
+        match resolved {
+            Some(time) if time > current => time,
+            // Keep the distance on the time line instead.
+            _ => current + (naive - current.naive_local()),
+        }
+    }
+
     fn get_next_time(
         current: DateTime<Local>,
         interval: TimeTriggerInterval,
@@ -222,7 +243,8 @@ impl TimeTrigger {
             let n = n as i32;
             let increment = if modulate { n - year % n } else { n };
             let year_new = year + increment;
-            return Local.with_ymd_and_hms(year_new, 1, 1, 0, 0, 0).unwrap();
+            let date = NaiveDate::from_ymd_opt(year_new, 1, 1).unwrap();
+            return Self::local_after(date.and_time(Default::default()), current);
         }
 
         if let TimeTriggerInterval::Month(n) = interval {
@@ -233,53 +255,50 @@ impl TimeTrigger {
             let num_months_new = num_months + increment;
             let year_new = (num_months_new / 12) as i32;
             let month_new = (num_months_new) % 12 + 1;
-            return Local
-                .with_ymd_and_hms(year_new, month_new, 1, 0, 0, 0)
-                .unwrap();
+            let date = NaiveDate::from_ymd_opt(year_new, month_new, 1).unwrap();
+            return Self::local_after(date.and_time(Default::default()), current);
         }
 
-        let month = current.month();
-        let day = current.day();
+        // The boundaries are computed on the wall clock of the local zone, so that they stay
+        // on unit boundaries across changes of the zone's UTC offset.
+        let date = current.date_naive();
         if let TimeTriggerInterval::Week(n) = interval {
             let week0 = current.iso_week().week0() as i64;
             let weekday = current.weekday().num_days_from_monday() as i64; // Monday is the first day of the week
-            let time = Local.with_ymd_and_hms(year, month, day, 0, 0, 0).unwrap();
+            let time = date.and_time(Default::default());
             let increment = if modulate { n - week0 % n } else { n };
-            return time + Duration::weeks(increment) - Duration::days(weekday);
+            return Self::local_after(
+                time + Duration::weeks(increment) - Duration::days(weekday),
+                current,
+            );
         }
 
         if let TimeTriggerInterval::Day(n) = interval {
             let ordinal0 = current.ordinal0() as i64;
-            let time = Local.with_ymd_and_hms(year, month, day, 0, 0, 0).unwrap();
+            let time = date.and_time(Default::default());
             let increment = if modulate { n - ordinal0 % n } else { n };
-            return time + Duration::days(increment);
+            return Self::local_after(time + Duration::days(increment), current);
         }
 
         let hour = current.hour();
         if let TimeTriggerInterval::Hour(n) = interval {
-            let time = Local
-                .with_ymd_and_hms(year, month, day, hour, 0, 0)
-                .unwrap();
+            let time = date.and_hms_opt(hour, 0, 0).unwrap();
             let increment = if modulate { n - (hour as i64) % n } else { n };
-            return time + Duration::hours(increment);
+            return Self::local_after(time + Duration::hours(increment), current);
         }
 
         let min = current.minute();
         if let TimeTriggerInterval::Minute(n) = interval {
-            let time = Local
-                .with_ymd_and_hms(year, month, day, hour, min, 0)
-                .unwrap();
+            let time = date.and_hms_opt(hour, min, 0).unwrap();
             let increment = if modulate { n - (min as i64) % n } else { n };
-            return time + Duration::minutes(increment);
+            return Self::local_after(time + Duration::minutes(increment), current);
         }
 
         let sec = current.second();
         if let TimeTriggerInterval::Second(n) = interval {
-            let time = Local
-                .with_ymd_and_hms(year, month, day, hour, min, sec)
-                .unwrap();
+            let time = date.and_hms_opt(hour, min, sec).unwrap();
             let increment = if modulate { n - (sec as i64) % n } else { n };
-            return time + Duration::seconds(increment);
+            return Self::local_after(time + Duration::seconds(increment), current);
         }
         panic!("Should not reach here!");
     }
